@@ -73,6 +73,10 @@ def enter_cm(E, cm, st, node):
     if isinstance(cm, FileHandle):
         yield st, cm
         return
+    if isinstance(cm, SVal) and cm.ty is OPAQUE:
+        E.assumptions.add("opaque context managers are transparent: __enter__ returns the object, the body runs, exceptions propagate")
+        yield st, cm
+        return
     raise OutsideSubset(f"context manager {cm!r}")
 
 
